@@ -82,9 +82,12 @@ func (t *Transcript) ComputeChallenge(challengeID string) ([]byte, error) {
 		return nil, errChallengeNotFound
 	}
 
-	// if the challenge was already computed we return it
+	// if the challenge was already computed we return it (a copy: the cached
+	// value also feeds the next challenge, the caller must not be able to modify it)
 	if challenge.isComputed {
-		return challenge.value, nil
+		res := make([]byte, len(challenge.value))
+		copy(res, challenge.value)
+		return res, nil
 	}
 
 	// reset before populating the internal state
